@@ -8,3 +8,11 @@ package metadatastore
 //@ ensures[C04:mismatch-rejected] checksumInput != nil && specMismatch(*checksumInput, calculatedChecksums) ==> err == ErrBadDigest
 //@ ensures[C04:no-spurious-reject] err != nil ==> checksumInput != nil && specMismatch(*checksumInput, calculatedChecksums)
 //@ ensures[C04:error-kind] err == nil || err == ErrBadDigest
+
+// The validated-name constructors return the name they were given (they panic, or report an error, otherwise).
+//@ func MustNewBucketName
+//@ mode nosafety
+//@ ensures[C37:bucket-name-is-the-string] result.String() == name
+//@ func MustNewObjectKey
+//@ mode nosafety
+//@ ensures[C37:object-key-is-the-string] result.String() == key
